@@ -47,11 +47,15 @@ pub trait ConnectionState {
     ///
     /// Return the error as an Err variant if it is set in order to allow using ? in the calling function
     fn get_conn_error(&self) -> Option<ErrorOrigin> {
+        #[cfg(feature = "verif-hooks")]
+        crate::verif::point("get_conn_error");
         self.shared_state().connection_error.get().cloned()
     }
 
     /// tries to set the connection error
     fn set_conn_error(&self, error: ErrorOrigin) -> ErrorOrigin {
+        #[cfg(feature = "verif-hooks")]
+        crate::verif::point("set_conn_error");
         let err = self
             .shared_state()
             .connection_error
@@ -68,6 +72,8 @@ pub trait ConnectionState {
 
     /// Get the settings
     fn settings(&self) -> Cow<'_, Settings> {
+        #[cfg(feature = "verif-hooks")]
+        crate::verif::point("settings");
         //= https://www.rfc-editor.org/rfc/rfc9114#section-7.2.4.2
         //# Each endpoint SHOULD use
         //# these initial values to send messages before the peer's SETTINGS
@@ -81,23 +87,31 @@ pub trait ConnectionState {
     }
     /// Set the connection to closing
     fn set_closing(&self) {
+        #[cfg(feature = "verif-hooks")]
+        crate::verif::point("set_closing");
         self.shared_state()
             .closing
             .store(true, std::sync::atomic::Ordering::Relaxed);
     }
     /// Check if the connection is closing
     fn is_closing(&self) -> bool {
+        #[cfg(feature = "verif-hooks")]
+        crate::verif::point("is_closing");
         self.shared_state()
             .closing
             .load(std::sync::atomic::Ordering::Relaxed)
     }
     /// Set the settings
     fn set_settings(&self, settings: Settings) {
+        #[cfg(feature = "verif-hooks")]
+        crate::verif::point("set_settings");
         let _ = self.shared_state().settings.set(settings);
     }
 
     /// Returns the waker for the connection
     fn waker(&self) -> &AtomicWaker {
+        #[cfg(feature = "verif-hooks")]
+        crate::verif::point("waker");
         &self.shared_state().waker
     }
 }
